@@ -116,3 +116,48 @@ Qed.
 Theorem qidtype_of_filetype m : QIDType m = qidtype_of_type (FileType m).
 Proof. reflexivity. Qed.
 
+
+(** * from the kernel's st_mode to os.FileMode (Go's os.fillFileStatFromSys on Linux:
+      fs.mode = FileMode(st.Mode & 0777); switch st.Mode & S_IFMT { S_IFBLK: ModeDevice; S_IFCHR: ModeDevice|ModeCharDevice;
+      S_IFDIR: ModeDir; S_IFIFO: ModeNamedPipe; S_IFLNK: ModeSymlink; S_IFREG: nothing; S_IFSOCK: ModeSocket };
+      S_ISGID -> ModeSetgid; S_ISUID -> ModeSetuid; S_ISVTX -> ModeSticky).  Standard library, modelled by hand and
+      compared with the real os.Lstat on files of every kind by the harness. *)
+Definition S_IFMT : N := 61440.
+Definition os_mode_of_stat (st : N) : N :=
+  let m := N.land st 511 in
+  let ty := N.land st S_IFMT in
+  let m := N.lor m
+    (if ty =? 24576 then os_ModeDevice
+     else if ty =? 8192 then N.lor os_ModeDevice os_ModeCharDevice
+     else if ty =? 16384 then os_ModeDir
+     else if ty =? 4096 then os_ModeNamedPipe
+     else if ty =? 40960 then os_ModeSymlink
+     else if ty =? 49152 then os_ModeSocket
+     else 0) in
+  let m := if has st 1024 then N.lor m os_ModeSetgid else m in
+  let m := if has st 2048 then N.lor m os_ModeSetuid else m in
+  let m := if has st 512 then N.lor m os_ModeSticky else m in
+  m.
+
+(** localfs info(): qid.Type = p9.ModeFromOS(fi.Mode()).QIDType(), fi from (l)stat *)
+Definition info_type (st_mode : N) : N := QIDType (ModeFromOS (os_mode_of_stat st_mode)).
+
+Definition stat_ok (t p : N) : bool :=
+  let st := N.lor t p in
+  (ModeFromOS (os_mode_of_stat st) =? st) && (info_type st =? qidtype_of_type t) && (info_type st =? QIDType st).
+
+Lemma all_stat_ok : forallb (fun t => forallb (stat_ok t) (Nrange 4096)) valid_types = true.
+Proof. vm_compute. reflexivity. Qed.
+
+(** for every kind of file and every permission word: the FileMode localfs derives
+    from the stat result is the st_mode itself (what GetAttr reports as Attr.Mode),
+    and the QID type info() computes is the one the table gives that file type *)
+Theorem stat_mode_and_type t p : In t valid_types -> p < 4096 ->
+  ModeFromOS (os_mode_of_stat (N.lor t p)) = N.lor t p /\
+  info_type (N.lor t p) = qidtype_of_type t /\ info_type (N.lor t p) = QIDType (N.lor t p).
+Proof.
+  intros Ht Hp. pose proof all_stat_ok as H. rewrite forallb_forall in H.
+  specialize (H t Ht). rewrite forallb_forall in H. specialize (H p (In_Nrange 4096 p Hp)).
+  unfold stat_ok in H. rewrite !andb_true_iff in H. destruct H as ((H1 & H2) & H3).
+  repeat split; now apply N.eqb_eq.
+Qed.
